@@ -136,6 +136,20 @@ theorem fold_params (t : PrecTable) (sp : Spacing) (orc : Oracle) (a : Arguments
   rw [foldArgs_names, foldArgs_names]
 
 
+theorem fold_nameOf_eq (t : PrecTable) (sp : Spacing) (orc : Oracle) (e : Expr) : nameOf (foldE t sp orc e) = nameOf e := by
+  cases hn : nameOf e with
+  | none => exact fold_nameOf t sp orc e hn
+  | some p => obtain ⟨x, c⟩ := p; rw [nameOf_some e x c hn]; simp [foldE, nameOf]
+
+theorem fold_notTuple (t : PrecTable) (sp : Spacing) (orc : Oracle) (e : Expr) (h : isTuple e = false) :
+    isTuple (foldE t sp orc e) = false := by
+  cases e
+  case tuple => simp [isTuple] at h
+  case binOp l op r =>
+    simp only [foldE]
+    rcases foldBinOp_shape t sp orc (foldE t sp orc l) op (foldE t sp orc r) with h1 | ⟨c, h1⟩ | ⟨c, h1⟩ <;> rw [h1] <;> rfl
+  all_goals (simp only [foldE]; rfl)
+
 def foldMap (t : PrecTable) (sp : Spacing) (orc : Oracle) : ExprMap := ⟨foldE t sp orc, foldArguments t sp orc, false⟩
 
 theorem fold_exprOK (t : PrecTable) (sp : Spacing) (orc : Oracle) : ExprOK (foldMap t sp orc) where
@@ -146,6 +160,7 @@ theorem fold_exprOK (t : PrecTable) (sp : Spacing) (orc : Oracle) : ExprOK (fold
   notCall := fun e h => fold_asNameCall t sp orc e h
   notName := fun e h => fold_nameOf t sp orc e h
   params := fun a => fold_params t sp orc a
+  handlerTy := fun ty => excKind_map _ (fold_nameOf_eq t sp orc) (fun es => by simp [foldE, foldL_eq_map]) (fold_notTuple t sp orc) ty
 
 /-- constant folding of a whole module refines its PyCore behaviour, for any oracle -/
 theorem run_foldModule (t : PrecTable) (sp : Spacing) (orc : Oracle) (n : Nat) (md : Module)
@@ -211,6 +226,18 @@ theorem pos_params (a : Arguments) : paramNames (ExprMap.mapArguments id mergePo
     simp [paramNames, ExprMap.mapOptArg, ExprMap.mapArgs, ExprMap.mapOL, ExprMap.mapL, posArgs_names]
 
 open PMV.Transforms in
+theorem pos_nameOf_eq (e : Expr) : nameOf (ExprMap.mapE id mergePosonly e) = nameOf e := by
+  cases hn : nameOf e with
+  | none => exact pos_nameOf e hn
+  | some p => obtain ⟨x, c⟩ := p; rw [nameOf_some e x c hn]; simp [ExprMap.mapE, nameOf]
+
+open PMV.Transforms in
+theorem pos_notTuple (e : Expr) (h : isTuple e = false) : isTuple (ExprMap.mapE id mergePosonly e) = false := by
+  cases e
+  case tuple => simp [isTuple] at h
+  all_goals (simp only [ExprMap.mapE, id]; rfl)
+
+open PMV.Transforms in
 theorem pos_exprOK : ExprOK posMap where
   evalOK := fun s e h => homo_evalE _ _ posE_homo s e h
   name := fun x c => by simp [posMap, ExprMap.mapE]
@@ -219,6 +246,7 @@ theorem pos_exprOK : ExprOK posMap where
   notCall := fun e h => pos_asNameCall e h
   notName := fun e h => pos_nameOf e h
   params := fun a => pos_params a
+  handlerTy := fun ty => excKind_map _ pos_nameOf_eq (fun es => by simp [ExprMap.mapE, posL_eq_map]) pos_notTuple ty
 
 /-- positional-only conversion refines the PyCore behaviour of a whole module -/
 theorem run_removePosargs (n : Nat) (md : Module) (hcore : (run n md).ending ≠ "stuck") :
